@@ -125,6 +125,9 @@ Holds(f, i) ==
 
 Judge == \A k \in 1..Len(Formulas) : Holds(Formulas[k], cur) \/ PrintT(<<"FAIL", Formulas[k], cur>>)
 
+(* counters witness the DRIVEN situation (pre-state + request), not the outcome the code produced *)
+DueIn(nd, g) == \E i \in 1..Len(Pre(nd).auc) : LET a == Pre(nd).auc[i] IN a.gen = g /\ a.nb > 0 /\ (Pre(nd).t > a.endT \/ Pre(nd).t > a.bidEndT)
+ShutdownHook(nd) == nd.a = "HookV1" /\ Pre(nd).esm
 Count(P(_)) == Cardinality({i \in 1..NLog : P(Nd(i))})
 Stats == PrintT(<<"STATS", [nodes |-> NLog,
    acceptedBids |-> Count(Accepted),
@@ -135,11 +138,13 @@ Stats == PrintT(<<"STATS", [nodes |-> NLog,
    closesGen2 |-> Count(LAMBDA nd : nd.a = "Block" /\ nd.st.ev.closed # ""),
    starts |-> Count(LAMBDA nd : IsStep(nd) /\ nd.st.ev.started # ""),
    noTokenMintHooks |-> Count(LAMBDA nd : HookOf(nd) # 0 /\ ~Pre(nd).tm /\ nd.st.ev.stuck # ""),
-   shutdownEndsWithBid |-> Count(LAMBDA nd : nd.a = "HookV1" /\ Pre(nd).esm /\ \E i \in ClosedSet(nd) : Pre(nd).auc[i].nb > 0),
-   shutdownEndsNoBid |-> Count(LAMBDA nd : nd.a = "HookV1" /\ Pre(nd).esm /\ \E i \in ClosedSet(nd) : Pre(nd).auc[i].nb = 0),
-   shutdownEndsSurplus |-> Count(LAMBDA nd : nd.a = "HookV1" /\ Pre(nd).esm /\ \E i \in ClosedSet(nd) : Pre(nd).auc[i].kind = "surplus"),
-   shutdownEndsDebt |-> Count(LAMBDA nd : nd.a = "HookV1" /\ Pre(nd).esm /\ \E i \in ClosedSet(nd) : Pre(nd).auc[i].kind = "debt"),
-   shutdownBlocksGen2 |-> Count(LAMBDA nd : nd.a = "Block" /\ Pre(nd).esm /\ ClosedSet(nd) # {}),
+   dueGen1 |-> Count(LAMBDA nd : nd.a = "HookV1" /\ Pre(nd).tm /\ DueIn(nd, 1)),
+   dueGen2 |-> Count(LAMBDA nd : nd.a = "Block" /\ Pre(nd).tm /\ \E i \in 1..Len(Pre(nd).auc) : LET a == Pre(nd).auc[i] IN a.gen = 2 /\ a.nb > 0 /\ Pre(nd).t + nd.args.dt > a.endT),
+   shutdownEndsWithBid |-> Count(LAMBDA nd : ShutdownHook(nd) /\ \E i \in 1..Len(Pre(nd).auc) : Pre(nd).auc[i].gen = 1 /\ Pre(nd).auc[i].nb > 0),
+   shutdownEndsNoBid |-> Count(LAMBDA nd : ShutdownHook(nd) /\ \E i \in 1..Len(Pre(nd).auc) : Pre(nd).auc[i].gen = 1 /\ Pre(nd).auc[i].nb = 0),
+   shutdownEndsSurplus |-> Count(LAMBDA nd : ShutdownHook(nd) /\ \E i \in 1..Len(Pre(nd).auc) : Pre(nd).auc[i].gen = 1 /\ Pre(nd).auc[i].kind = "surplus"),
+   shutdownEndsDebt |-> Count(LAMBDA nd : ShutdownHook(nd) /\ \E i \in 1..Len(Pre(nd).auc) : Pre(nd).auc[i].gen = 1 /\ Pre(nd).auc[i].kind = "debt"),
+   shutdownBlocksGen2 |-> Count(LAMBDA nd : nd.a = "Block" /\ Pre(nd).esm /\ \E i \in 1..Len(Pre(nd).auc) : Pre(nd).auc[i].gen = 2),
    feeMoves |-> Count(LAMBDA nd : IsStep(nd) /\ nd.st.nf # Log[nd.parent].st.nf) ]>>)
 AllSeen == Stats /\ TLCGet("stats").distinct = NLog
 =============================================================================
